@@ -477,7 +477,7 @@ func joinOperator(v interface{}, operator string) (string, error) {
 		}
 		ops := make([]string, len(arr))
 		for i := 0; i < len(arr); i++ {
-			ope, err := parseOperand(arr[i], false, operator == " != ")
+			ope, err := parseOperand(arr[i], false, operator == " != " && len(arr) == 1)
 			if err != nil {
 
 				return "", err
